@@ -36,7 +36,8 @@ Definition s3_trace (page : nat) (pfx : str) (b : bucket) (o : op str) : list re
     let hk := gen_get_s3_key pfx (gen_open_size_path p) in
     repeat (RHead hk) (attempts_of (negb (has str_eqb hk b)))
     ++ map (fun r => RGetR (gen_open_key pfx p) (fst r) (snd r)) (snd (s3_open pfx b p prog))
-  | Stream p => let k := gen_get_s3_key pfx p in repeat (RGet k) (attempts_of (negb (has str_eqb k b)))
+  | Stream p | ReadTag p => let k := gen_get_s3_key pfx p in repeat (RGet k) (attempts_of (negb (has str_eqb k b)))
+  | WriteCas p _ => let k := gen_get_s3_key pfx p in repeat (RGet k) (attempts_of (negb (has str_eqb k b))) ++ [RPut k]
   end.
 
 Fixpoint run_trace (page : nat) (pfx : str) (b : bucket) (ops : list (op str)) : list (list req) :=
